@@ -9,6 +9,7 @@ mod rx_resolver;
 mod rx_font;
 mod rx_cache;
 mod rx_objstm;
+mod rx_prefix;
 
 fn main() {
     let args: Vec<String> = std::env::args().collect();
@@ -27,6 +28,7 @@ fn main() {
         "pagetree" => rx_pagetree::run(&args[2], &args[3], &opts),
         "resolver" => rx_resolver::run(&args[2], &args[3], &opts),
         "objstm" => rx_objstm::run(&args[2], &args[3], &opts),
+        "prefix" => rx_prefix::run(&args[2], &args[3], &opts),
         "cache" => rx_cache::run(&args[2], &args[3], &opts),
         "widths" => rx_font::run_widths(&args[2], &args[3], &opts),
         "cmap" => rx_font::run_cmap(&args[2], &args[3], &opts),
